@@ -997,12 +997,16 @@ func (tc *typechecker) checkImport(impor *ast.Import) error {
 		}
 
 		// Read the declarations from the native package.
-		imported := &packageInfo{}
-		imported.Declarations = map[string]*typeInfo{}
-		for n, d := range toTypeCheckerScope(pkg, tc.opts.mod, false, 0) {
-			imported.Declarations[n] = d.ti
+		imported, ok := tc.compilation.nativePkgInfos[impor.Path]
+		if !ok {
+			imported = &packageInfo{}
+			imported.Declarations = map[string]*typeInfo{}
+			for n, d := range toTypeCheckerScope(pkg, tc.opts.mod, false, 0) {
+				imported.Declarations[n] = d.ti
+			}
+			imported.Name = pkg.PackageName()
+			tc.compilation.nativePkgInfos[impor.Path] = imported
 		}
-		imported.Name = pkg.PackageName()
 
 		// {% import "path" for N1, N2 %}
 		//
